@@ -22,6 +22,7 @@ from harness.gallina import glist, gstr
 ID = "C05"
 COQ_TARGETS = ["XmiLoad.vo", "XmiLoadProofs.vo", "XmiLoadProofs2.vo", "XmiLoadProofs3.vo", "CorrC05.vo",
                "JsonDoc.vo", "Json.vo", "JsonProofs.vo", "JsonProofs2.vo", "JsonLoadProofs.vo", "JsonLex.vo", "PropsJson.vo",
+               "JsonViewOmit.vo", "JsonViewOmitProofs.vo",
                "Props/C05.vo"]
 PROPS_FILE = "Props/C05.v"
 CORR_IMPORTS = "Base Heap Schema Canon XmiDoc XmiLoad CorrC05"
@@ -714,8 +715,8 @@ MANIFEST = {
     "level_note": "Trusted: Coq kernel + vm_compute; hand-written models XmiLoad.v / XmiDoc.v; xml.etree for bytes <-> abstract "
                   "documents (namespace resolution, escaping, iterparse order are below the model); float(str) as a table per "
                   "case. The JSON half of C05 runs as sub-suite C05json (harness/props/C05json.py, CorrC05json.v); its theorems "
-                  "C05_json_* (proved in JsonProofs*.v / JsonLoadProofs.v / JsonLex.v, collected in PropsJson.v) are in the same "
-                  "Props file coq/Props/C05.v.",
+                  "C05_json_* (proved in JsonProofs*.v / JsonLoadProofs.v / JsonLex.v, collected in PropsJson.v; omission of the %VIEWS "
+                  "entries of member-less views: JsonViewOmit.v / JsonViewOmitProofs.v) are in the same Props file coq/Props/C05.v.",
     "technique": "Coq proof over an executable Gallina model + in-Coq behavioural correspondence + direct oracle (variant vs base)",
     "design_ref": "DESIGN.md section 5, C05",
 }
